@@ -257,7 +257,7 @@ ITEMS = [
                        rewrites=[dict(find=r'for\s+(\w+)\s+in\s+(\w+)\s*\{', to=FOR_TO, expand=True),
                                  dict(find=r'\|\|\s*path\s*\.\s*extension_format\s*\(\s*\)',
                                       to='|| -> (r: Option<Format>) ensures r == ext_format_spec(&path) { path.extension_format() }')],
-                       inserts=[dict(after=r'stdin_used\s*=\s*true\s*;\s*\}', text=AFTER_STDIN_CHECK)])),
+                       inserts=[dict(before=[r'let\s+from\s*=', r'let\s+\w+\s*=\s*match\s+input\b', r'match\s+input\s*\{'], text=AFTER_STDIN_CHECK)])),
 ]
 
 CONSTS = []
